@@ -148,7 +148,7 @@ func c12Gen(g *kit.Lane, tier string) c12Scenario {
 	n := 1 + g.Choose(10)
 	for i := 0; i < n; i++ {
 		op := c12Op{Sol: g.Choose(nq)}
-		op.Op = []string{"Next", "Scan", "Err", "Close", "Cancel"}[g.Weighted(10, 3, 3, 3, 1)]
+		op.Op = []string{"Next", "Scan", "Err", "Close", "Cancel", "ScanBad"}[g.Weighted(10, 3, 3, 3, 1, 1)]
 		sc.Ops = append(sc.Ops, op)
 	}
 	return sc
@@ -552,6 +552,15 @@ func (c12) Exec(r *kit.Run) {
 						return
 					}
 					check(i)
+				case "ScanBad":
+					// a destination the answer does not fit (or a struct without a field for it): whatever Scan says, the iterator
+					// is what it was - its answers, its end and its error are those of the query, not of a conversion
+					var bad struct {
+						X chan int
+						N chan int
+					}
+					err := s.Scan(&bad)
+					r.Logf("op %d sol%d Scan into an unfit destination -> err=%v", n, i, err)
 				case "Scan":
 					v := kit.NewVars()
 					err := s.Scan(v)
